@@ -414,7 +414,7 @@ def _histories(kind, L, extra):
     for n in range(0, L + 1):
         for seq in itertools.product(ops, repeat=n):
             if extra and extra not in seq: continue
-            if seq.count('reset') + seq.count('set-reset') > 1 or seq.count('rebase-source') > 1: continue
+            if seq.count('reset') + seq.count('set-reset') > 1 or seq.count('rebase-source') > 1 or seq.count('rebase-member') > 1: continue
             out.append(list(seq) + ['call a', 'call b'])
     return out
 
@@ -428,8 +428,10 @@ def real_configs(tier):
             for basis in ('mol', 'wt'):
                 for n, (pa, pb) in enumerate(pairs):
                     for form in ('dict', 'text', 'corrected'):
-                        for extra in (None, 'rebase-source', 'set-reset'):
-                            if extra and kind not in ('parallel', 'series'): continue
+                        for extra in (None, 'rebase-source', 'set-reset', 'rebase-member'):
+                            if extra == 'rebase-member':
+                                if kind != 'system': continue
+                            elif extra and kind not in ('parallel', 'series'): continue
                             selected = True
                             if True:
                                 # two configurations per program (phase-less on one basis, phase-tagged on the other), form and
@@ -439,7 +441,7 @@ def real_configs(tier):
                                 if (basis == 'wt') != ((i + tagged) % 2 == 1): selected = False
                                 h = i + 2 * tagged
                                 if n != h % 3 or form != ('dict', 'text', 'corrected')[(h // 3 + tagged) % 3]: selected = False
-                                if extra and pname not in ('parallel[ch4|h2]', 'series[pox;co]'): selected = False
+                                if extra and pname not in ('parallel[ch4|h2]', 'series[pox;co]', 'system[h2;co]'): selected = False
                             if tier == 'quick' and not selected: continue
                             if not selected and form != ('dict', 'text', 'corrected')[(i + n + tagged + (basis == 'wt')) % 3]:
                                 continue      # thorough: program x tagged x basis x package pair in full, the written form rotated
@@ -498,6 +500,7 @@ def real_histories(w, cfg):
             info = dict(history=hist, sample=sample)
             n_hist += 1
             alive = True
+            member_rebased = False
             for step_no, op in enumerate(hist):
                 if not alive: break
                 what, _, sn = op.partition(' ')
@@ -549,11 +552,20 @@ def real_histories(w, cfg):
                         obj.reset_chemicals(W.thermo(RPK[rpkg]).chemicals)
                     elif what == 'rebase-source':
                         leaves[-1][1].basis = 'wt' if leaves[-1][1]._basis == 'mol' else 'mol'
+                    elif what == 'rebase-member':
+                        # a member reaction of a ReactionSystem is re-based in place after the system was built (added after seeded
+                        # change C05_7): the system must either still act as its members do or refuse, never react on mixed bases
+                        leaves[-1][1].basis = 'wt' if leaves[-1][1]._basis == 'mol' else 'mol'
+                        member_rebased = True
                     else:
                         raise AssertionError(op)
                 except InfeasibleRegion:
                     ensure('InfeasibleRegion only if a flow would be negative', what in ('call', 'item', 'slice', 'arr') and min(e.values()) < 0., **info)
                     alive = False
+                    continue
+                except RuntimeError as err:
+                    if not (member_rebased and 'basis' in str(err)): raise
+                    alive = False       # a refusal (the property constrains normal returns only; the state after the error is not specified)
                     continue
                 n_steps += 1
                 for n, (s, f) in streams.items():
